@@ -130,10 +130,13 @@ func (f Float) MarshalJSON() ([]byte, error) {
 
 	// When decimal place is missing, add it. This only happens
 	// when the number is 0.
-	if num[1] != '.' {
-		num = append(num[0:3], num[1:]...)
-		num[1] = '.'
-		num[2] = '0'
+	d := 1 // position after the first digit
+	if num[0] == '-' {
+		d = 2
+	}
+	if num[d] != '.' {
+		// always include a fractional part
+		num = append(num[:d], append([]byte{'.', '0'}, num[d:]...)...)
 	}
 
 	// Split into two parts
